@@ -7,7 +7,7 @@ def draws(s):
     return [s.next_float().hex(), s.next_int(0, 10 ** 6), s.next_float().hex()]
 
 
-def apply(cfg, order, history=False, reuse=False, late=False, via_info=False, custom=False, ddict=False, refused=False):
+def apply(cfg, order, history=False, reuse=False, late=False, via_info=False, custom=False, ddict=False, refused=False, reconf=False):
     from pydsol.core.streams import MersenneTwister, SimpleStreamUpdater, StreamSeedUpdater
     streams = {}
     for name in order:
@@ -28,6 +28,7 @@ def apply(cfg, order, history=False, reuse=False, late=False, via_info=False, cu
             s.set_seed(12345)
             s.next_bool()
         streams[name] = s
+    registered = None
     if cfg["updater"] == "simple":
         up = SimpleStreamUpdater()
     elif via_info:
@@ -38,9 +39,12 @@ def apply(cfg, order, history=False, reuse=False, late=False, via_info=False, cu
         for name in order:
             decoy.add_stream(name, MersenneTwister(1))
             decoy.add_seed_values(name, [901, 902])
-        info = StreamSeedInformation()
+        # (a stream named 'default' is handed over as the container's default stream, the documented constructor argument)
+        info = StreamSeedInformation(streams["default"]) if "default" in streams else StreamSeedInformation()
         for name in order:
-            info.add_stream(name, streams[name])
+            if name != "default":
+                info.add_stream(name, streams[name])
+        registered = info.get_streams()      # what an experiment driver updates: the container's own view of its streams
         for k, v in cfg["table"].items():
             if k in streams:
                 info.add_seed_values(k, [777, 778, 779])      # configured once ...
@@ -57,6 +61,24 @@ def apply(cfg, order, history=False, reuse=False, late=False, via_info=False, cu
         # the seed table is a dict subclass that invents missing keys on look-up (collections.defaultdict(list))
         import collections
         up = StreamSeedUpdater(collections.defaultdict(list, {k: list(v) for k, v in cfg["table"].items()}))
+    elif reconf:
+        # the updater served replications with OTHER seed lists first (every stream listed, also the ones the configuration
+        # leaves to the fallback); then its live table is reconfigured - lists replaced by new list objects, surplus entries
+        # deleted - and only then the judged update happens
+        up = StreamSeedUpdater({name: [9000 + 10 * k + j for j in range(12)] for k, name in enumerate(order)})
+        try:
+            up.update_seeds({name: MersenneTwister(5 + k) for k, name in enumerate(order)}, (cfg["r"] + 1) % 8)
+        except Exception:
+            pass
+        live = up.get_stream_seeds()
+        for name in order:
+            if name in cfg["table"]:
+                live[name] = list(cfg["table"][name])
+            else:
+                del live[name]
+        for k, v in cfg["table"].items():
+            if k not in live:
+                live[k] = list(v)
     elif late:
         # the seed table is completed after the updater was built, through the live table the updater hands out:
         # at update time the configured seed lists are the same as in the base variant
@@ -110,9 +132,9 @@ def apply(cfg, order, history=False, reuse=False, late=False, via_info=False, cu
     try:
         if cfg.get("one_by_one"):
             for name in order:
-                up.update_seed(name, streams[name], cfg["r"])
+                up.update_seed(name, (registered if registered is not None else streams)[name], cfg["r"])
         else:
-            up.update_seeds(streams, cfg["r"])
+            up.update_seeds({k: v for k, v in registered.items() if k in streams} if registered is not None else streams, cfg["r"])
     except Exception as e:
         out["__error__"] = type(e).__name__
     for name in order:
@@ -130,6 +152,7 @@ def main():
         for n in names:
             r["alone"][n] = apply(dict(cfg, streams={n: cfg["streams"][n]}), [n]).get(n)
         r["shipped"] = apply(cfg, names, history="shipped")
+        r["reconf"] = apply(cfg, names, reconf=True) if cfg["updater"] == "table" else r["base"]
         r["late"] = apply(cfg, names, late=True) if cfg["updater"] == "table" else r["base"]
         r["info"] = apply(cfg, names, via_info=True) if cfg["updater"] == "table" else r["base"]
         if cfg["updater"] == "table":
